@@ -31,6 +31,7 @@ Nothing is judged here.
 
 from __future__ import annotations
 
+import asyncio
 import re
 from typing import Any
 
@@ -175,7 +176,7 @@ class MemServer(UDSServer):
 
 
 _RE_ADDR = re.compile(r"address\W*?(0x[0-9a-f]+|\d+)\b", re.I)
-_RE_DONE = re.compile(r"scan in session\W*(0x[0-9a-f]+|\d+)\s+is complete", re.I)
+_RE_TIMEOUT = re.compile(r"time[ -]?out|timed out|no (response|answer|reply)|missing response|unanswered", re.I)
 
 
 class LogNotUnderstood(Exception):
@@ -218,7 +219,7 @@ def run_case(case: dict[str, Any], mutant: str | None = None) -> dict[str, Any]:
         m = _RE_ADDR.search(msg)
         if m:
             a = int(m.group(1), 0)
-            out["ev"].append({"k": "res", "a": addr_bytes(a), "w": "timeout" if "timeout" in msg.lower() else "resp"})
+            out["ev"].append({"k": "res", "a": addr_bytes(a), "w": "timeout" if _RE_TIMEOUT.search(msg) else "resp"})
         else:
             out["bad_records"].append(msg[:120])
 
@@ -236,11 +237,10 @@ def run_case(case: dict[str, Any], mutant: str | None = None) -> dict[str, Any]:
                 out["done"] = f"exc:{type(e).__name__}"
         flush()
 
+    # the server loop's inactivity reset (10 s without a request) reads time.time(): give it the virtual clock
     import gallia.services.uds.server as server_mod
 
     real_time = server_mod.time
-    import asyncio
-
     server_mod.time = lambda: asyncio.get_event_loop().time()  # type: ignore[assignment]
     try:
         with capture_results(sink):
